@@ -181,6 +181,9 @@ def snap(cls, depth=0):
     o = {'kind': k, 'tn': tname(cls), 'ns': cls.__namespace__, 'attrs': attrs_of(cls), 'v': verdicts(cls)}
     sca = cls.Attributes.sqla_column_args
     o['col'] = None if sca is None else [[a, aval(v)] for a, v in sca[-1].items()]
+    # the classes whose class statement extends this one (customised variants see the list of their original)
+    subs = vars(cls.Attributes).get('_subclasses') if (is_complex(cls) and cls.__orig__ is None) else None
+    o['subs'] = None if subs is None else [tname(x) for x in subs]
     orig = cls.__dict__.get('__orig__', None) if k == 'xmlattr' else cls.__orig__
     o['orig'] = None if orig is None else tname(orig)
     if k == 'xmlattr':
@@ -439,6 +442,14 @@ def shallow(c):
         if is_complex(c):
             o['flat'] = list(c.get_flat_type_info(c).keys())
             o['ids'] = [n for n, _ in c.get_identifiers()]           # primary-key fields
+            sub = c.Attributes._subclasses
+            o['subclasses'] = None if sub is None else [id(x) for x in sub]
+            # (read past the memo: it is not invalidated when an *empty* class is subclassed - a staleness of the
+            # cache, not of the models)
+            memo = getattr(getattr(impl_env()[0].ComplexModelBase.__dict__['get_subclasses'], '__func__', None), 'memo', None)
+            if memo is not None:
+                memo.clear()
+            o['get_subclasses'] = [id(x) for x in c.get_subclasses()]
     if hasattr(c, 'ancestors'):
         o['ancestors'] = [id(x) for x in c.ancestors()]
     return o
@@ -745,8 +756,18 @@ def gen_op(rng, impl, step, serial):
         fields = [[n, rng.choice(idx)] for n in names]
         base = None
         # (a customised class with own fields cannot be subclassed: AssertionError; one without is not modelled)
+        def on_empty_base(c):
+            # declared on a user class that had no fields then: its Attributes derive from that class's without it
+            # being its base class (`__extends__` is None) - the known empty-base corner, not used as a base again
+            for x in c.__mro__:
+                if x.__dict__.get('__module__') == 'c15hist' and x.__dict__.get('__orig__') is None and \
+                        x.__extends__ is None and any(b.__dict__.get('__module__') == 'c15hist' and
+                                                      not b.__dict__.get('__mixin__') for b in x.__bases__):
+                    return True
+            return False
         cand = [i for i in cplx if (pool[i].__orig__ is None or len(pool[i]._type_info) > 0)
-                and not getattr(pool[i], '__mixin__', False)]      # (a mixin as only base: use 'mixins')
+                and not getattr(pool[i], '__mixin__', False)       # (a mixin as only base: use 'mixins')
+                and not on_empty_base(pool[i])]
         if cand and rng.random() < 0.55:
             base = rng.choice(cand)
         op = {'k': 'sub', 'name': 'K%s_%d' % (serial, step), 'base': base, 'ns': rng.choice([None, 'ns.a', 'ns.k']),
@@ -845,6 +866,12 @@ def measure_facts():
     Bx.customize(min_occurs=1)
     Bx.append_field('zz', P.Unicode)
     f['varRuleX'] = 'inheritedFromBase' if 'zz' in A1x._type_info else 'ownPerClass'
+    # who registers in `_subclasses` of a base class: class statements only, or customised variants as well?
+    Sb = cx.ComplexModelMeta('C15FactSB', (cx.ComplexModel,), odict([('__module__', 'c15hist'), ('a', P.Integer)]))
+    Ss = cx.ComplexModelMeta('C15FactSS', (Sb,), odict([('__module__', 'c15hist'), ('b', P.Integer)]))
+    Ss.customize(min_occurs=1)
+    cx.Mandatory(Ss)
+    f['subsRule'] = 'classStatementsOnly' if list(Sb.Attributes._subclasses or ()) == [Ss] else 'alsoVariants'
     # customize(prot=p): are the keywords merged into a copy of the protocol's type_attrs?
     from spyne.protocol import ProtocolBase
     pr = ProtocolBase()
@@ -912,7 +939,7 @@ def measure_facts():
 
 
 MSL_EXTRA = None
-GOOD = {'mandRule': 'copies', 'varRule': 'ownPerClass', 'varRuleX': 'ownPerClass', 'patRule': 'always', 'delayAppend': 'allFirst', 'delayInsert': 'allFirst', 'protCopy': 'copied', 'mixinOrder': 'declared', 'mslRule': 'followsRequested', 'colCopy': 'deep',
+GOOD = {'mandRule': 'copies', 'varRule': 'ownPerClass', 'varRuleX': 'ownPerClass', 'patRule': 'always', 'delayAppend': 'allFirst', 'delayInsert': 'allFirst', 'protCopy': 'copied', 'subsRule': 'classStatementsOnly', 'mixinOrder': 'declared', 'mslRule': 'followsRequested', 'colCopy': 'deep',
         'dictOrdered': True}
 
 
@@ -973,6 +1000,7 @@ def facts15 : Facts15 where
   delayAppend := .%s
   delayInsert := .%s
   protCopy := .%s
+  subsRule := .%s
   mixinOrder := .%s
   prots := [%s]
   mslRule := .%s
@@ -995,7 +1023,7 @@ def facts15 : Facts15 where
   xmlattrRoot := %d
 
 end SpyneModel.Generated
-''' % (f['mandRule'], f['varRule'], f['varRuleX'], f['patRule'], f['delayAppend'], f['delayInsert'], f['protCopy'], f['mixinOrder'],
+''' % (f['mandRule'], f['varRule'], f['varRuleX'], f['patRule'], f['delayAppend'], f['delayInsert'], f['protCopy'], f['subsRule'], f['mixinOrder'],
        ', '.join(lean_kw(x) for x in f['prots']), f['mslRule'], f['mslExtra'], f['colCopy'], b(f['dictOrdered']), lean_str(f['mandPrefix']), lean_str(f['mandSuffix']),
        lean_str(f['arrPrefix']), lean_str(f['arrSuffix']), ', '.join(lean_str(s) for s in f['prefNs']),
        ', '.join(lean_str(s) for s in MODEL_KEYS), lean_kw(f['numDefaults']), lean_kw(f['uniDefaults']),
@@ -1252,6 +1280,13 @@ class Oracle:
             if after is None or i in allowed:
                 continue
             changed = sorted(x for x in after if x not in ('flat', 'ids') and after[x] != before.get(x))
+            if k == 'sub' and new is not None and new.__extends__ is not None and (
+                    i in pre.get('allowed_sub', ()) or
+                    getattr(impl.registry[i].Attributes, '_subclasses', None) is new.__extends__.Attributes._subclasses or
+                    (is_complex(impl.registry[i]) and new.__extends__ in impl.registry[i].get_subclasses())):
+                # (everything that sees the very list the new class was added to: the class it extends, that class's
+                # variants, and classes whose Attributes derive from it without an entry of their own)
+                changed = [x for x in changed if x not in ('subclasses', 'get_subclasses')]
             if 'schema' in changed and (str(after['schema']).startswith('exc:') or str(before.get('schema')).startswith('exc:')):
                 # the schema generator itself fails on the interface this class now belongs to
                 changed = [x for x in changed if x not in ('schema', 'schema_names')]
@@ -1581,6 +1616,20 @@ def pre_facts(impl, op):
         ti = getattr(src, '_type_info', None)
         pre['src_fields'] = list(ti.items()) if isinstance(ti, dict) else []
         pre['src_flat'] = flat_names(src) if is_complex(src) else []
+    if k == 'sub' and op.get('base') is not None:
+        # a class statement adds itself to `_subclasses` of the class it extends (seen by its variants, and by
+        # get_subclasses() of every class above it)
+        b = impl.pool[op['base']]
+        chain = []
+        x = b if len(b._type_info) > 0 else b.__extends__
+        while x is not None:
+            chain.append(x)
+            x = x.__extends__
+        allowed = set()
+        for x in chain:
+            allowed.add(id(x))
+            allowed |= {id(v) for v in impl.registry.values() if is_complex(v) and v.__dict__.get('__orig__') is x}
+        pre['allowed_sub'] = allowed
     if k in ('append', 'insert'):
         c = impl.pool[op['c']]
         targets = [c]
@@ -1895,6 +1944,14 @@ FACT_WITNESS = {
                        {'k': 'cust', 'src': 14, 'kw': _kw(max_occurs=3), 'sa': _kw(min_occurs=1)},
                        {'k': 'cust', 'src': 15, 'kw': [], 'sa': _kw(nillable=False, sub_ns='ns.sub')},
                        {'k': 'sub', 'name': 'OC', 'base': 13, 'ns': 'ns.a', 'fields': [['q', 12], ['r', 15]], 'attrs': _kw(nullable=False)}],
+    'subsRule': [{'k': 'sub', 'name': 'SBase', 'base': None, 'ns': 'ns.a', 'fields': [['a', I_]]},
+                 {'k': 'sub', 'name': 'SSub', 'base': 8, 'ns': 'ns.a', 'fields': [['b', U_]]},
+                 {'k': 'cust', 'src': 9, 'kw': _kw(min_occurs=1)},
+                 {'k': 'cust', 'src': 9, 'kw': [], 'ca': [['b', _kw(min_occurs=1)]], 'caa': _kw(nillable=False)},
+                 {'k': 'mand', 'src': 9}, {'k': 'array', 'src': 9, 'kw': []},
+                 {'k': 'sub', 'name': 'SSub2', 'base': 8, 'ns': 'ns.a', 'fields': [['c', I_]]},
+                 {'k': 'sub', 'name': 'SSubSub', 'base': 9, 'ns': 'ns.a', 'fields': [['d', I_]]},
+                 {'k': 'cust', 'src': 15, 'kw': _kw(max_occurs=2)}],
     'mslRule': [{'k': 'cust', 'src': I32_, 'kw': _kw(ge=0)}, {'k': 'cust', 'src': D_, 'kw': _kw(total_digits=5)}],
     'colCopy': [{'k': 'cust', 'src': U_, 'kw': _kw(max_len=32)}, {'k': 'cust', 'src': 8, 'kw': _kw(pk=True)},
                 {'k': 'cust', 'src': 8, 'kw': _kw(min_len=2)},
